@@ -96,6 +96,12 @@ impl Fam<'_> {
         self.settings("elements:struct", "", "struct{x := *c, y := bump(), z := *c}", "(struct{x=5, y=7, z=7}, 7)");
         self.settings("elements:struct-reversed-names", "", "struct{z := *c, y := bump(), x := *c}", "(struct{x=7, y=7, z=5}, 7)");
         self.settings("elements:repeat", "", "[bump(); *c - 5]", "([7, 7], 7)");
+        // the element expression of `[v; n]` is evaluated once, before the length, whatever it yields
+        self.judge("elements:repeat-of-a-fresh-cell", "n := mut 0; mk := () -> mut int { n += 1; return mut *n }; r := [mk(); 3]; r[0] = 50; ([*r[0], *r[1], *r[2]], *n)", "([50, 50, 50], 1)");
+        self.judge("elements:repeat-of-a-fresh-cell", "n := mut 0; mk := () -> mut int { n += 1; return mut *n }; k := () -> int { n += 10; return 2 }; r := [mk(); k()]; r[1] += 5; ([*r[0], *r[1]], *n)", "([6, 6], 11)");
+        self.judge("elements:repeat-of-a-fresh-cell", "f := (len: int) -> any { n := mut 0; mk := () -> mut int { n += 1; return mut *n }; r := [mk(); len]; return (std.len(r), *n) }; (f(0), f(1), f(4))", "((0, 1), (1, 1), (4, 1))");
+        self.judge("elements:repeat-of-a-fresh-container", "n := mut 0; mk := () -> (mut int, int) { n += 1; return (mut *n, *n) }; r := [mk(); 3]; r[2].0 = 9; ([*r[0].0, *r[1].0], *n)", "([9, 9], 1)");
+        self.judge("elements:repeat-of-a-fresh-container", "n := mut 0; mk := () -> [int] { n += 1; return [*n] }; r := [mk(); 3]; (r, *n)", "([[1], [1], [1]], 1)");
         self.settings("arguments", "g := (x: int, y: int, z: int) -> (int, int, int) { return (x, y, z) }; ", "g(*c, bump(), *c)", "((5, 7, 7), 7)");
         self.settings("arguments:nested-call", "g := (x: int, y: int) -> int { return x * 100 + y }; ", "g(g(*c, bump()), *c)", "(50707, 7)");
         self.settings("function-then-arguments", "fs := [(x: int) -> int { return x + 1000 }, (x: int) -> int { return x + 2000 }, (x: int) -> int { return x + 3000 }]; ", "fs[bump() - 7](*c)", "(1007, 7)");
@@ -186,8 +192,76 @@ impl Fam<'_> {
     }
 }
 
+impl Fam<'_> {
+    /// C12: an accepted `match` with type arms takes the first arm whose type the value belongs to - and has one
+    fn match_coverage(&mut self, cfg: &Cfg) {
+        use crate::oracle::{Ty, inhabits};
+        use simplesl::variable::Type;
+        use std::str::FromStr;
+        for (idx, case) in crate::optyping::match_coverage_cases().iter().enumerate() {
+            if !cfg.owns(idx as u64) {
+                continue;
+            }
+            if matches!(real::parse_exec(&format!("{} f", case.decl), true), Outcome::Rejected(..)) {
+                self.rep.count("match-coverage:rejected");
+                continue;
+            }
+            self.rep.count("match-coverage:accepted");
+            let arm_types: Vec<Option<Ty>> = case.arms.iter().map(|a| Type::from_str(a).ok().map(|t| Ty::from_real(&t))).collect();
+            for (v, call) in case.values.iter().zip(&case.calls) {
+                let Outcome::Value(val) = real::parse_exec(v, false) else { continue };
+                let taken = arm_types.iter().position(|t| t.as_ref().is_some_and(|t| inhabits(&val, t)));
+                let want = match taken {
+                    Some(i) => (i + 1).to_string(),
+                    None => {
+                        self.rep.violation(
+                            &format!("{}:match-coverage:accepted-match-has-no-arm", self.prop.to_lowercase()),
+                            &format!("`{}` is accepted, but no arm takes the value {v} (which the scrutinee type {} admits)", case.decl, case.scrutinee),
+                            "diff",
+                            &format!("#template <an arm>\n{call}\n"),
+                        );
+                        continue;
+                    }
+                };
+                self.judge("match-coverage:arm-taken", call, &want);
+            }
+        }
+    }
+}
+
+impl Fam<'_> {
+    /// C12: loops evaluate to (), wherever their exits stand; a function never falls out of a loop into nothing
+    fn loop_values(&mut self, cfg: &Cfg) {
+        for (idx, (src, want)) in crate::optyping::loop_value_programs().iter().enumerate() {
+            if !cfg.owns(idx as u64) {
+                continue;
+            }
+            self.rep.evaluations += 1;
+            self.rep.count("loop-value-cases");
+            let out = real::parse_exec(src, true);
+            let got = match &out {
+                Outcome::Value(v) => canon(v),
+                other => other.tag(),
+            };
+            let ok = match want.as_str() {
+                // bound to a name: (r, k) with r == ()
+                "" => got.starts_with("((), ") || matches!(out, Outcome::Rejected(..)),
+                "<int-or-rejected>" => matches!(out, Outcome::Rejected(..)) || matches!(out, Outcome::Value(simplesl::variable::Variable::Int(_))),
+                w => got == w || matches!(out, Outcome::Rejected(..)),
+            };
+            if !ok {
+                self.rep.violation(&format!("{}:loop-value", self.prop.to_lowercase()), &format!("`{}` gave {}, expected {}", truncate(src, 300), truncate(&got, 100), if want.is_empty() { "((), k)" } else { want }), "diff", &format!("#template {want}\n{src}\n"));
+            }
+        }
+    }
+}
+
 pub fn run(cfg: &Cfg, rep: &mut Report, prop: &str) {
     let mut fam = Fam { rep, prop };
     fam.read_write(cfg);
     fam.match_candidates(cfg);
+    if prop == "C12" {
+        fam.match_coverage(cfg);
+        fam.loop_values(cfg);
+    }
 }
